@@ -120,9 +120,19 @@ def exhaustive_structures(rng):
                         out.append((Op(op, [x, y]), "exhaustive-structure", torch.float64, coqrun.Z))
     return out
 
+def _mixed_block(V, rng, tier):
+    """operands of two dtypes (exact, promoted dtype, either order) and scalars that are not dyadic - see harness/mixdtype.py"""
+    import torch, torchtt, mixdtype
+    dist = {}
+    mixdtype.run_block(V, rng, torch, torchtt, False, dist, 12 if tier == "quick" else 120)
+    dist_op = {}
+    mixdtype.run_block(V, rng, torch, torchtt, True, dist_op, 4 if tier == "quick" else 40)      # scalars and operators: the same contract
+    dist.update({"operators: " + k: v for k, v in dist_op.items()})
+    return {"mixed_dtype_and_non_dyadic_scalar_cases": dist}
+
 def run(tier, seed, replay=None):
     import torch
     dtypes = [(torch.float64, coqrun.Z), (torch.float64, coqrun.Z), (torch.float32, coqrun.Z), (torch.complex128, coqrun.ZI)]
     return exprcheck.run(PID, tier, seed, gen_case, 400, 6000, RULE + ("; thorough tier additionally enumerates EVERY structure x (op) y of order 1..3 with mode "
                          "sizes 1..3, all trailing alignments and size-1 collapses of y" if tier == "thorough" else ""), nontrivial, dtypes,
-                         extra_cases=exhaustive_structures if tier == "thorough" else None)
+                         extra_cases=exhaustive_structures if tier == "thorough" else None, post=_mixed_block)
